@@ -152,8 +152,25 @@ def _worker(args):
             st.run(spec)
 
         failure = None
+        res["enumerated"] = 0
+        if hasattr(mod, "enumerate_cases"):
+            # bounded exhaustive sub-run, sharded over the workers (no Hypothesis involved)
+            cases = mod.enumerate_cases(tier)
+            for spec in cases[widx::nworkers]:
+                if time.time() > deadline:
+                    st.timed_out_calls += 1
+                    continue
+                res["enumerated"] += 1
+                st.calls += 1
+                _, new = st.judge(spec)
+                if new and st.best is None:
+                    st.best = (0, spec, new)
+                    st.best_key = core.canon(spec)
+                    failure = "violation"
+                    break
         try:
-            test()
+            if failure is None:
+                test()
         except ViolationFound:
             failure = "violation"
         except BaseException as e:  # noqa: BLE001
@@ -189,6 +206,7 @@ def _worker(args):
             timed_out_calls=st.timed_out_calls,
             notes=st.notes,
         )
+        res["enumerated_total"] = len(mod.enumerate_cases(tier)) if hasattr(mod, "enumerate_cases") else 0
     except BaseException as e:  # noqa: BLE001
         res["error"] = "".join(traceback.format_exception(type(e), e, e.__traceback__))[-4000:]
     res["wall"] = time.time() - t0
@@ -345,6 +363,8 @@ def main(argv=None):
             continue
         for k in ("calls", "evals", "filtered", "inconclusive", "timed_out_calls"):
             agg[k] += r[k]
+        agg["enumerated"] = agg.get("enumerated", 0) + r.get("enumerated", 0)
+        agg["enumerated_total"] = r.get("enumerated_total", 0)
         for k in ("classes", "refusals", "crashes", "excluded_known", "notes"):
             for kk, vv in r[k].items():
                 agg[k][kk] = agg[k].get(kk, 0) + vv
@@ -401,6 +421,8 @@ def main(argv=None):
             "per_worker_budget": budget,
             "notes": agg["notes"],
             "exhaustive": False,
+            "exhaustive_subrun": {"enumerated": agg.get("enumerated", 0), "of": agg.get("enumerated_total", 0),
+                                  "complete": bool(agg.get("enumerated_total", 0)) and agg.get("enumerated", 0) == agg.get("enumerated_total", 0)},
         },
         "assumptions": list(meta.ASSUMPTIONS),
         "wall_s": round(wall, 2),
